@@ -398,7 +398,11 @@ func (e *SpecEnv) fieldStep(v Value, i int) Value {
 	u := e.u
 	switch x := v.(type) {
 	case *StructV:
-		return u.fieldOfStruct(x, i)
+		r := u.fieldOfStruct(x, i)
+		if len(e.bound) == 0 {
+			u.assumeLoaded(e.st, r)
+		}
+		return r
 	case Sc:
 		st := derefType(x.Typ)
 		if st == nil || !isStructType(st) {
@@ -410,7 +414,11 @@ func (e *SpecEnv) fieldStep(v Value, i int) Value {
 			return u.loadAt(e.st.View(), addr, ft)
 		}
 		if lp, ok := addr.(LocPtr); ok {
-			return u.loadLoc(e.st.View(), lp.Fam, lp.Idx, lp.Typ)
+			r := u.loadLoc(e.st.View(), lp.Fam, lp.Idx, lp.Typ)
+			if len(e.bound) == 0 {
+				u.assumeLoaded(e.st, r)
+			}
+			return r
 		}
 	}
 	e.fail("field selection on %s", describeValue(v))
@@ -491,6 +499,9 @@ func (e *SpecEnv) evalIndex(n *SIndex) Value {
 			if _, ok := b.Typ.Underlying().(*types.Map); ok {
 				k := e.scalar(n.I)
 				v, _ := u.mapLookup(e.st.View(), b.Typ, b.T, k.T)
+				if len(e.bound) == 0 {
+					u.assumeLoadedRef(e.st, v)
+				}
 				return v
 			}
 		}
@@ -698,14 +709,14 @@ func (e *SpecEnv) evalCall(n *SCall) Value {
 		return Sc{TTrue, tb}
 	}
 	// user definitions
-	if d := e.pkg.findDefine(u.w, n.Fun); d != nil {
-		return e.applyDefine(d, n)
+	if d, home := e.pkg.findDefine(u.w, n.Fun); d != nil {
+		return e.applyDefine(d, home, n)
 	}
 	// Go functions evaluated symbolically inside the specification
 	return e.evalGoCall(n)
 }
 
-func (e *SpecEnv) applyDefine(d *Define, n *SCall) Value {
+func (e *SpecEnv) applyDefine(d *Define, home *PkgInfo, n *SCall) Value {
 	u := e.u
 	if len(n.Args) != len(d.Params) {
 		e.fail("%s expects %d arguments", d.Name, len(d.Params))
@@ -723,16 +734,31 @@ func (e *SpecEnv) applyDefine(d *Define, n *SCall) Value {
 		var ts []Term
 		for i, a := range args {
 			sc := u.asSc(a, nil)
-			_, s := e.resolveType(d.Params[i].Type)
+			he := *e
+			if home != nil {
+				he.pkg = home
+			}
+			_, s := he.resolveType(d.Params[i].Type)
 			sorts = append(sorts, s)
 			ts = append(ts, u.coerce(sc.T, s))
 		}
-		rt, rs := e.resolveType(d.Ret)
-		f := u.ctx.Fun("spec:"+d.Name, sorts, rs)
+		he := *e
+		if home != nil {
+			he.pkg = home
+		}
+		rt, rs := he.resolveType(d.Ret)
+		hn := ""
+		if home != nil {
+			hn = home.short + "."
+		}
+		f := u.ctx.Fun("spec:"+hn+d.Name, sorts, rs)
 		return Sc{app(f, rs, ts...), rt}
 	}
 	ne := *e
 	ne.depth = e.depth + 1
+	if home != nil {
+		ne.pkg = home
+	}
 	ne.vars = map[string]Value{}
 	ne.bound = map[string]Value{}
 	for i, p := range d.Params {
@@ -742,8 +768,10 @@ func (e *SpecEnv) applyDefine(d *Define, n *SCall) Value {
 			switch p.Type {
 			case "int", "real", "bool", "string", "ref":
 			default:
-				if t := e.pkg.evalType(u.w, p.Type); t != nil && scalarSort(t) != "" {
-					v = Sc{sc.T, t}
+				if sc.Typ == nil || sc.Typ == types.Typ[types.UntypedNil] {
+					if t := ne.pkg.evalType(u.w, p.Type); t != nil && scalarSort(t) != "" {
+						v = Sc{sc.T, t}
+					}
 				}
 			}
 			if p.Type == "real" {
@@ -858,6 +886,9 @@ func (e *SpecEnv) modItems(x SExpr) []modItem {
 		cur := base
 		for k, i := range path {
 			sc, isSc := cur.(Sc)
+			if sv, isSV := cur.(*StructV); isSV && sv.Ref != nil && len(sv.Fields) == 0 {
+				sc, isSc = Sc{*sv.Ref, types.NewPointer(sv.Typ)}, true
+			}
 			if !isSc {
 				e.fail("modifies: %s is not addressable", x.String())
 			}
